@@ -22,7 +22,35 @@ func (core *JApiCore) compileCatalog() *jerr.JApiError {
 		return je
 	}
 
-	return core.setPathVariablesToCatalog()
+	if je := core.setPathVariablesToCatalog(); je != nil {
+		return je
+	}
+
+	return core.checkUnusedPiecesOfPathVariables()
+}
+
+// checkUnusedPiecesOfPathVariables builds the pieces which no interaction has
+// used (the Path directive of a URL without methods): the schema of a Path
+// directive is checked only when the path variables are built from it.
+func (core *JApiCore) checkUnusedPiecesOfPathVariables() *jerr.JApiError {
+	for i := range core.rawPathVariables {
+		raw := &core.rawPathVariables[i]
+		if raw.imitated {
+			continue
+		}
+		for _, pp := range raw.parameters {
+			piece, ok := core.piecesOfPathVariables[pp]
+			if !ok || piece.used || piece.pathDirective != &raw.pathDirective {
+				continue
+			}
+			b := catalog.NewPathVariablesBuilder(core.catalog.UserTypes)
+			b.AddProperty(pp.parameter, piece.node.Copy(), piece.types, piece.ast)
+			if _, err := buildPathVariables(b); err != nil {
+				return piece.pathDirective.KeywordError(err.Error())
+			}
+		}
+	}
+	return nil
 }
 
 func (core *JApiCore) collectPiecesOfPathVariables() *jerr.JApiError {
@@ -99,6 +127,10 @@ func (core *JApiCore) setPathVariablesToCatalog() *jerr.JApiError {
 				var pathDirective *directive.Directive
 				for _, p := range pp {
 					if piece, ok := core.piecesOfPathVariables[p]; ok {
+						if !piece.used {
+							piece.used = true
+							core.piecesOfPathVariables[p] = piece
+						}
 						b.AddProperty(p.parameter, piece.node.Copy(), piece.types, piece.ast)
 						if pathDirective == nil {
 							pathDirective = piece.pathDirective
